@@ -32,7 +32,7 @@ OPS = [
     ("set", "a"), ("set", "b"), ("setroot", "a"), ("del", "a"), ("del", "b"),
     ("uoa", "a"), ("uoc", "b"),
     ("cleanup", "plain"), ("cleanup", "args"), ("cleanup", "layer:testrun"), ("cleanup", "layer:feature"),
-    ("fixture", "gen"), ("fixture", "plain"), ("fixture", "failing-gen"), ("fixture", "composite-fail"),
+    ("fixture", "gen"), ("fixture", "gen-nested"), ("fixture", "plain"), ("fixture", "failing-gen"), ("fixture", "composite-fail"),
     ("cleanup-shared", "plain"), ("cleanup-shared", "layer:feature"), ("cleanup-shared", "layer:testrun"),
 ]
 
@@ -234,6 +234,34 @@ def _h_ctx_ops(sx):
                     if sx.bool("raise%d" % me):
                         raise RuntimeError("fixture cleanup %d" % me)
                 r = use_fixture(fx, ctx)
+                sx.check(r == "setup%d" % me, "C13.fixture-setup-result")
+            elif how == "gen-nested":
+                # generator fixture whose SETUP part registers a plain cleanup and uses another generator fixture:
+                # the outer fixture was asked for first, so its teardown runs after both of them
+                cid[0] += 3
+                me, inner_c, inner_f = cid[0] - 2, cid[0] - 1, cid[0]
+                ref.frames[0]["cleanups"].extend([me, inner_c, inner_f])
+
+                @fixture
+                def fx_inner(context, inner_f=inner_f):
+                    yield "inner%d" % inner_f
+                    ran.append(inner_f)
+                    if sx.bool("raise%d" % inner_f):
+                        raise RuntimeError("fixture cleanup %d" % inner_f)
+
+                @fixture
+                def fx_outer(context, me=me, inner_c=inner_c):
+                    def plain_cleanup():
+                        ran.append(inner_c)
+                        if sx.bool("raise%d" % inner_c):
+                            raise RuntimeError("cleanup %d" % inner_c)
+                    context.add_cleanup(plain_cleanup)
+                    use_fixture(fx_inner, context)
+                    yield "setup%d" % me
+                    ran.append(me)
+                    if sx.bool("raise%d" % me):
+                        raise RuntimeError("fixture cleanup %d" % me)
+                r = use_fixture(fx_outer, ctx)
                 sx.check(r == "setup%d" % me, "C13.fixture-setup-result")
             elif how == "plain":
                 @fixture
